@@ -5,15 +5,13 @@
  "bound": "generated test modules through Example.run_inline: C01 value trees depth<=2 (quick)/3 (thorough), width<=3, 6 operations x 4 placements + multi-value snapshots, flags=create; C02 (odd old text, new value) pairs depth<=2/3 incl. two-snapshot bodies, flags=create,fix; oracle = rewritten module compiles and re-runs green with snapshot := identity",
  "input": {
   "prop": "C02",
-  "old": "()",
-  "new": "(1,)",
+  "old": "[2,]",
+  "new": "[2, 1, 2]",
   "op": "eq",
-  "shape": "two_fix",
-  "placement": "assert",
-  "old2": "[b'x', b'x']",
-  "new2": "[b'x']"
+  "shape": "single",
+  "placement": "assert"
  },
- "detail": "a test raised during the create,fix run: RuntimeError:\ngenerator raised StopIteration\nsource:\ndef test_a():\n    v1 = (1,)\n    v2 = [b'x']\n    assert v1 == snapshot(())\n    assert v2 == snapshot([b'x', b'x'])\n\nrewritten:\ndef test_a():\n    v1 = (1,)\n    v2 = [b'x']\n    assert v1 == snapshot((1,))\n    assert v2 == snapshot([b'x', b'x'])\n"
+ "detail": "a test raised during the create,fix run: RuntimeError:\ngenerator raised StopIteration\nsource:\ndef test_a():\n    v = [2, 1, 2]\n    assert v == snapshot([2,])\n\nrewritten:\ndef test_a():\n    v = [2, 1, 2]\n    assert v == snapshot([2,])\n"
 }
 """
 
@@ -65,7 +63,7 @@ def rerun_identity(src):
     finally:
         inline_snapshot.snapshot = real
 
-SRC = "from inline_snapshot import snapshot\n\n\n# ---- case ----\ndef test_a():\n    v1 = (1,)\n    v2 = [b'x']\n    assert v1 == snapshot(())\n    assert v2 == snapshot([b'x', b'x'])\n"
+SRC = 'from inline_snapshot import snapshot\n\n\n# ---- case ----\ndef test_a():\n    v = [2, 1, 2]\n    assert v == snapshot([2,])\n'
 FLAGS = 'create,fix'
 after, raised = run_inline({'test_something.py': SRC}, FLAGS, cwd_files={})
 new = after['test_something.py']
